@@ -1,5 +1,6 @@
 import OrsoVerif.Model.PyVal
 import OrsoVerif.Model.Cache
+import OrsoVerif.Model.CacheGen
 /-! Driver glue for C19: sequential histories and scheduled concurrent runs of both caches. -/
 namespace Drv.C19
 open Cache
@@ -27,6 +28,20 @@ def decodeOp : PyVal → Option (Op PyVal)
   | _ => none
 
 def encEv (e : Ev PyVal) : PyVal := .list [.int e.ret, .bool e.invoked, .int e.now]
+
+/-- the generated wrappers are run with a constant hash: the theorems hold for ANY hash function -/
+instance : Hashable PyVal := ⟨fun _ => 0⟩
+
+def encGEv (e : GEv (PyVal × PyVal)) : PyVal :=
+  .list [match e.ret with | some r => .int r | none => .none, .int e.now]
+
+def splitKey : PyVal → PyVal × PyVal
+  | .list [a, b] => (a, b)
+  | v => (v, .none)
+
+def splitOp : Op PyVal → Op (PyVal × PyVal)
+  | .call k => .call (splitKey k)
+  | .advance d => .advance d
 
 def encLog (l : List (PyVal × Int)) : PyVal := .list (l.map fun p => .list [p.1, .int p.2])
 
@@ -104,11 +119,13 @@ def handle (op : String) (args : List PyVal) : Option (List PyVal) :=
     match kind with
     | "single" =>
       let r := singleRun valid (costOf costs) (SState.init t0) ops
-      pure [.list (r.2.map encEv), encLog r.1.log, .list (r.2.map encEv)]
+      let g := gSingleRun (fun k => costOf costs (.list [k.1, k.2])) valid Gen.CacheFns.single_init { now := t0, log := [] } (ops.map splitOp)
+      pure [.list (r.2.map encEv), encLog r.1.log, .list (r.2.map encEv), .list (g.2.map encGEv)]
     | "lru" =>
       let r := lruRun maxSize.toNat valid (costOf costs) (LState.init t0) ops
       let sp := specRun maxSize.toNat valid (costOf costs) (LState.init t0) ops
-      pure [.list (r.2.map encEv), encLog r.1.log, .list (sp.2.map encEv)]
+      let g := gLruRun (fun k => costOf costs (.list [k.1, k.2])) maxSize.toNat valid Gen.CacheFns.lru_init { now := t0, log := [] } (ops.map splitOp)
+      pure [.list (r.2.map encEv), encLog r.1.log, .list (sp.2.map encEv), .list (g.2.map encGEv)]
     | _ => none
   | "conc", [.str kind, .str prog, valid, .int maxSize, .int t0, .list costs, .list keys, .list sched] => do
     let valid ← optInt valid
